@@ -328,7 +328,7 @@ impl Prop for C02Prop {
         vec![Section {
             name: "random",
             kind: SectionKind::Random {
-                cases: tier.pick(600, 700),
+                cases: tier.pick(600, 300),
                 maxlen: 6000,
             },
             exhaustive: false,
